@@ -28,6 +28,12 @@ use crate::{
     tcp::{hang_up, serve, SeenConn},
 };
 
+/// which system trust store this process sees: "system" or "empty" (bin/check points SSL_CERT_FILE / SSL_CERT_DIR at
+/// empty fixtures for the second pass)
+pub fn store_label() -> String {
+    std::env::var("VERIF_C12_STORE").unwrap_or_else(|_| "system".into())
+}
+
 pub const BACKEND: &str = if cfg!(feature = "tlsrustls") { "rustls" } else { "native-tls" };
 
 #[derive(Clone, Copy, Debug, PartialEq, Eq, Serialize, Deserialize, PartialOrd, Ord)]
@@ -94,8 +100,9 @@ impl Cell {
     }
     pub fn describe(&self) -> String {
         format!(
-            "backend={} client={} flag={} roots={} identity={} host={}",
+            "backend={} store={} client={} flag={} roots={} identity={} host={}",
             BACKEND,
+            store_label(),
             match self.client { Client::Blocking => "blocking", Client::Async => "async" },
             match self.flag { Flag::Unset => "unset", Flag::False => "false", Flag::True => "true" },
             match self.roots { Roots::None => "none", Roots::CorrectPem => "pem", Roots::CorrectDer => "der", Roots::UnrelatedPem => "unrelated" },
@@ -226,7 +233,7 @@ pub fn run_cell(cell: &Cell, seed: u64) -> CellResult {
         1 => Framing::Chunked(vec![7, 64]),
         _ => Framing::CloseDelimited,
     };
-    let script = Script { status: 200, framing, ipp: ipp.clone(), trailing: vec![], segments: vec![*rng.pick(&[5u32, 64, 4096])], fault: None, reset_request_after: None };
+    let script = Script { status: 200, framing, ipp: ipp.clone(), trailing: vec![], segments: vec![*rng.pick(&[5u32, 64, 4096])], fault: None, reset_request_after: None, drip_ms: 0 };
     let mut res = CellResult { cell: cell.describe(), must_accept: cell.must_accept(), accepted: false, error: None, server_app_bytes: 0, server_connections: 0, response_equal: None, violation: None, ms: 0 };
     let printer = match TlsPrinter::start(cell.identity, script) {
         Ok(p) => p,
@@ -402,7 +409,7 @@ pub fn main_c12(args: &[String]) -> i32 {
     let seed = std::env::var("VERIF_SEED").ok().and_then(|v| v.parse().ok()).unwrap_or(1u64);
     let mode = args.get(2).map(|s| s.as_str()).unwrap_or("--merge");
     let file = args.get(3).map(PathBuf::from).unwrap_or_else(|| verif_root().join("work/c12-part.json"));
-    println!("C12: tier={} seed={} backend={} cells={}", tier.name(), seed, BACKEND, Cell::all().len());
+    println!("C12: tier={} seed={} backend={} trust-store={} cells={}", tier.name(), seed, BACKEND, store_label(), Cell::all().len());
     let half = run_matrix(seed, tier);
     let mut exit = 0;
     let mut known_lines: Vec<String> = Vec::new();
@@ -430,38 +437,40 @@ pub fn main_c12(args: &[String]) -> i32 {
         exit = 1;
     }
     let accepted = half.results.iter().filter(|r| r.accepted).count();
-    println!("C12[{BACKEND}]: cells={} accepted={} rejected={} violations={} wall={:.1}s", half.results.len(), accepted, half.results.len() - accepted, new_violations, half.wall_s);
-    let part = json!({"backend": BACKEND, "results": half.results, "wall_s": half.wall_s, "violations": new_violations, "known": known_lines, "exit": exit});
+    println!("C12[{BACKEND}, {} trust store]: cells={} accepted={} rejected={} violations={} wall={:.1}s", store_label(), half.results.len(), accepted, half.results.len() - accepted, new_violations, half.wall_s);
+    let part = json!({"backend": format!("{BACKEND}/{}-trust-store", store_label()), "results": half.results, "wall_s": half.wall_s, "violations": new_violations, "known": known_lines, "exit": exit});
+    // the part file accumulates one entry per pass (backend x trust store)
+    let mut parts: Vec<Value> = std::fs::read(&file).ok().and_then(|b| serde_json::from_slice(&b).ok()).unwrap_or_default();
+    parts.push(part);
     if mode == "--part" {
         if let Some(d) = file.parent() {
             let _ = std::fs::create_dir_all(d);
         }
-        std::fs::write(&file, serde_json::to_vec(&part).unwrap()).expect("write part");
+        std::fs::write(&file, serde_json::to_vec(&parts).unwrap()).expect("write part");
         return exit;
     }
-    // merge
-    let other: Value = std::fs::read(&file).ok().and_then(|b| serde_json::from_slice(&b).ok()).unwrap_or(Value::Null);
+    // merge: this is the last pass
+    if parts.len() < 2 {
+        eprintln!("harness error: the earlier passes ({}) are missing", file.display());
+        return 2;
+    }
     let mut all_results: Vec<Value> = Vec::new();
-    let mut wall = half.wall_s;
-    let mut viol = new_violations;
-    let mut known_all = known_lines.clone();
-    let mut backends = vec![BACKEND.to_string()];
-    if let Some(o) = other.as_object() {
+    let mut wall = 0.0;
+    let mut viol = 0u64;
+    let mut known_all: Vec<String> = Vec::new();
+    let mut backends: Vec<String> = Vec::new();
+    for o in &parts {
         all_results.extend(o["results"].as_array().cloned().unwrap_or_default());
         wall += o["wall_s"].as_f64().unwrap_or(0.0);
         viol += o["violations"].as_u64().unwrap_or(0);
         for k in o["known"].as_array().cloned().unwrap_or_default() {
             known_all.push(k.as_str().unwrap_or("").to_string());
         }
-        backends.insert(0, o["backend"].as_str().unwrap_or("?").to_string());
+        backends.push(o["backend"].as_str().unwrap_or("?").to_string());
         if o["exit"].as_i64().unwrap_or(0) != 0 {
             exit = 1;
         }
-    } else {
-        eprintln!("harness error: the other backend's half ({}) is missing", file.display());
-        return 2;
     }
-    all_results.extend(half.results.iter().map(|r| serde_json::to_value(r).unwrap()));
     write_evidence(tier, seed, &all_results, wall, viol, &known_all, &backends);
     exit
 }
@@ -478,7 +487,7 @@ fn write_evidence(tier: Tier, seed: u64, results: &[Value], wall: f64, violation
         *fired.entry(format!("cells.{}", if acc { "accepted" } else { "rejected" })).or_insert(0) += 1;
         *fired.entry(format!("expected.{}", if must { "accept" } else { "reject" })).or_insert(0) += 1;
         for tok in cell.split_whitespace() {
-            if tok.starts_with("identity=") || tok.starts_with("backend=") || tok.starts_with("client=") {
+            if tok.starts_with("identity=") || tok.starts_with("backend=") || tok.starts_with("client=") || tok.starts_with("store=") {
                 *fired.entry(format!("handshakes.{tok}")).or_insert(0) += 1;
             }
         }
@@ -499,7 +508,7 @@ fn write_evidence(tier: Tier, seed: u64, results: &[Value], wall: f64, violation
             "evaluations": results.len(),
             "distinct_nontrivial": distinct_reject.len(),
             "distinct_cells": distinct.len(),
-            "rule": "Complete enumeration of the matrix client {blocking, async} x ignore flag {unset, false, true} x extra roots {none, correct PEM, correct DER, unrelated PEM} x server identity {valid, wrong host (SAN printer.invalid), expired (2020-01..2020-02), self-signed leaf, signed by an unknown CA} x URI host {localhost, 127.0.0.1} = 240 cells per TLS backend, for both backends (native-tls and rustls; one harness build each) = 480 real handshakes per repetition (quick: 1 repetition, thorough: 3 with different seeds) against an in-process rustls server on loopback; the seed permutes the order and draws the request/response. Oracle: accept iff flag == true or (identity == valid and roots in {PEM, DER}); accept => Ok and response equal to the scripted one; reject => Err and the server application received 0 bytes after the handshake. distinct_nontrivial = distinct must-reject cells executed (the fault cells); distinct_cells = all distinct cells.",
+            "rule": "Complete enumeration of the matrix client {blocking, async} x ignore flag {unset, false, true} x extra roots {none, correct PEM, correct DER, unrelated PEM} x server identity {valid, wrong host (SAN printer.invalid), expired (2020-01..2020-02), self-signed leaf, signed by an unknown CA} x URI host {localhost, 127.0.0.1} = 240 cells per TLS backend, for both backends (native-tls and rustls; one harness build each), each once with the machine's trust store and once with an EMPTY system trust store (SSL_CERT_FILE / SSL_CERT_DIR pointed at empty fixtures; a separate process because the stores are cached per process) = 960 real handshakes per repetition (quick: 1 repetition, thorough: 3 with different seeds) against an in-process rustls server on loopback; the seed permutes the order and draws the request/response. Oracle: accept iff flag == true or (identity == valid and roots in {PEM, DER}); accept => Ok and response equal to the scripted one; reject => Err and the server application received 0 bytes after the handshake. distinct_nontrivial = distinct must-reject cells executed (the fault cells); distinct_cells = all distinct cells.",
             "exhaustive": true,
             "samples": samples,
             "fired": fired,
